@@ -17,6 +17,7 @@ func c12NameExprs() []string {
 	for _, f := range []string{"name", "local-name", "namespace-uri"} {
 		out = append(out, f+"()", f+"(.)", f+"(..)", f+"(ancestor::*)", f+"(ancestor-or-self::node())", f+"(preceding::node())", f+"(preceding-sibling::node())", f+"(/none)", f+"(@*)",
 			f+"(namespace::*)", f+"(following::node())", f+"(//@*)", f+"(//namespace::*)", f+"(//processing-instruction())", f+"(//comment())", f+"(//text())", f+"(/)", f+"(/*)", f+"(*)", f+"(../@*)",
+			f+"(namespace::* | @*)", f+"((namespace::* | @*)[2])", f+"((namespace::* | @*)[last()])", f+"(//*/namespace::*[last()] | //*/@*)", f+"(@* | namespace::*[last()])",
 			f+"(1)", f+"('a')", f+"(true())", f+"(., .)", "string-length("+f+"())", f+"(//*[last()])", f+"(//*[2] | //*[1])")
 	}
 	// a caller-supplied node-set that is neither ascending nor descending
@@ -120,7 +121,7 @@ func C12(c *run.Check) {
 	}
 	var jobs []job
 	for _, f := range shapes {
-		for _, dc := range []int{adoc.D0, adoc.D1, adoc.D2, adoc.D3, adoc.D4} {
+		for _, dc := range []int{adoc.D0, adoc.D1, adoc.D2, adoc.D3, adoc.D4, adoc.D5} {
 			jobs = append(jobs, job{f, dc})
 		}
 	}
@@ -178,7 +179,7 @@ func C12(c *run.Check) {
 	r.runGrid(len(j4), func(i int) *adoc.Doc { return adoc.Instantiate(j4[i].f, j4[i].deco) }, langs[:12], nil)
 	c.Sample(map[string]string{"doc": ld[7].String(), "context": "every node", "expr": "lang('en')"})
 	c.Sample(map[string]string{"doc": adoc.Instantiate(jobs[len(jobs)/2].f, adoc.D3).String(), "context": "every node", "expr": "name(preceding::node())"})
-	c.Rule = fmt.Sprintf("forests <=%d nodes x decorations D0-D4: %d name/local-name/namespace-uri/count expressions (default and explicit argument, empty sets, reverse-axis node-sets, wrong-typed arguments) from EVERY node of every kind; %d documents with xml:lang on self/ancestor/overridden/absent (incl. every ordered arrangement of lang / p:lang / xml:lang attributes on one element) over %d tag values x %d lang() expressions (ranges differing in case, with region/script/private-use subtags, empty) from every node; compared with the reference; non-trivial = distinct (expression, context kind, result)", n, len(names), len(ld), len(c12Langs), len(langs))
+	c.Rule = fmt.Sprintf("forests <=%d nodes x decorations D0-D5: %d name/local-name/namespace-uri/count expressions (default and explicit argument, empty sets, reverse-axis node-sets, unions of namespace and attribute nodes of one element, wrong-typed arguments) from EVERY node of every kind; %d documents with xml:lang on self/ancestor/overridden/absent (incl. every ordered arrangement of lang / p:lang / xml:lang attributes on one element) over %d tag values x %d lang() expressions (ranges differing in case, with region/script/private-use subtags, empty) from every node; compared with the reference; non-trivial = distinct (expression, context kind, result)", n, len(names), len(ld), len(c12Langs), len(langs))
 	c.Set("documents", len(jobs)+len(ld)+len(j4))
 	c.Assume("reference: refxp.NodeNames / refxp.Lang (exact or prefix + '-', ASCII case-insensitive)")
 }
